@@ -39,5 +39,10 @@ CHECKS = {
         note="Reactor mode matched to the template's hydrogen style; representation changes are verified in the generator to leave the chemistry unchanged.",
         technique="metamorphic property testing (representation changes, strategy lattice) with attribution by differential re-run",
     ),
+    "C14": dict(
+        text="Differential testing of the operational layers: BatchReactor.fit per entry vs SynReactor on that entry alone (ordered lists) over generated batches with repeats and look-alike substrates, cache on/off, cache sizes 1/2/32768, entry/rule worker counts 1-4; the same under a legal adversarial id() (fault injection: a new object may receive the id of a dead one, chosen by generated booleans, GC forced so 'dead' is deterministic); parallel vs serial validate_smiles and dicts_balance_check; parallel (2-8 workers) vs serial SynCRN.build; batched vs one-shot clustering.",
+        note="OS scheduling of worker processes is not controlled: equality is shown for the worker counts and batches generated. The adversarial id respects the language guarantee (unique among live objects).",
+        technique="differential property testing with fault injection on object identity (Hypothesis-driven)",
+    ),
 }
 NOT_APPLICABLE = {}
